@@ -124,11 +124,16 @@ def c19_4(ctx, r):
     if len(sites) != 1:
         raise AnalysisError("C19.4", f"expected one Result construction in _complete, found {len(sites)}")
     s = sites[0]
-    a = s.node.args
-    kw = {k.arg: ctx.src(k.value) for k in s.node.keywords}
-    r.check(len(a) >= 4 and ctx.src(a[0]) == "self._job.name", "Result.name = self._job.name", key_of(cp, "result name"), s.loc, f"name = {ctx.src(a[0]) if a else None}", "carries the job's name")
-    r.check(len(a) >= 2 and ctx.src(a[1]) == "self._return_code", "Result.return_code = self._return_code", key_of(cp, "result rc"), s.loc, f"return_code = {ctx.src(a[1]) if len(a) > 1 else None}", "its real exit code")
-    r.check(kw.get("hpc_job_id") == "self._hpc_job_id", "Result.hpc_job_id = self._hpc_job_id", key_of(cp, "result hpc id"), s.loc, f"hpc_job_id = {kw.get('hpc_job_id')}", "the HPC job id of the node that ran it")
+    new = res.methods["__new__"]
+
+    def arg(name):
+        v = ctx.arg_for(s, new, name)
+        return ctx.src(v) if v is not None else None
+
+    r.check(arg("name") == "self._job.name", "Result.name = self._job.name", key_of(cp, "result name"), s.loc, f"name = {arg('name')}", "carries the job's name")
+    r.check(arg("return_code") == "self._return_code", "Result.return_code = self._return_code", key_of(cp, "result rc"), s.loc, f"return_code = {arg('return_code')}", "its real exit code")
+    r.check(arg("hpc_job_id") == "self._hpc_job_id", "Result.hpc_job_id = self._hpc_job_id", key_of(cp, "result hpc id"), s.loc, f"hpc_job_id = {arg('hpc_job_id')} (completion_time = {arg('completion_time')})", "the HPC job id of the node that ran it")
+    r.check(arg("completion_time") in (None, "None"), "completion_time is left to default to now", key_of(cp, "result completion time"), s.loc, f"completion_time = {arg('completion_time')}")
     st = [x for x in iter_own(cp.node) if isinstance(x, ast.Assign) and ctx.src(x.targets[0]) == "self._return_code"]
     r.check(len(st) == 1 and ctx.src(st[0].value) == "self._pipe.returncode", "_return_code = self._pipe.returncode", key_of(cp, "rc source"), cp.loc(), f"_return_code <- {[ctx.src(x.value) for x in st]}", "its real exit code")
     ap = ctx.some_sites(cp, "C19.4", short="ResultsAggregator.append")
@@ -163,7 +168,7 @@ def c19_4(ctx, r):
 def c19_5(ctx, r):
     ge = ctx.fn("GenericCommandExecution.generate_command", "C19.5")
     cfg = ctx.cfg(ge)
-    pairs = {"--jade-job-name=": ("append_job_name", "{job.name}"), "--jade-runtime-output=": ("append_output_dir", "{output_dir}")}
+    pairs = {"--jade-job-name=": ("append_job_name", ("{job.name}",)), "--jade-runtime-output=": ("append_output_dir", ("{output_dir}", "{os.path.dirname(output)}"))}
     seen = set()
     for n in cfg.nodes:
         if n.kind == "stmt" and isinstance(n.ast, ast.AugAssign) and ctx.src(n.ast.target) == "cmd":
@@ -175,12 +180,13 @@ def c19_5(ctx, r):
                     want = {(f"<GenericCommandParameters.{flag}>", True), (f"job.{flag}", True)}
                     r.check(bool(forms & want) and len({f for f, p in forms if f.startswith("<")} | {f for f, p in forms if not f.startswith("<")}) <= 2, f"{opt} appended iff job.{flag}", key_of(ge, f"{opt} guard"), ge.loc(n.ast),
                             f"{opt} is appended under {sorted(('' if p else 'not ') + f for f, p in forms)}", "plus the documented --jade-job-name and --jade-runtime-output arguments when requested")
-                    r.check(f" {opt}{val}" in t, f"{opt}<value> with a separating space", key_of(ge, f"{opt} text"), ge.loc(n.ast), f"appended text is {t}")
+                    r.check(any(f" {opt}{v}" in t for v in val), f"{opt}<value> with a separating space", key_of(ge, f"{opt} text"), ge.loc(n.ast), f"appended text is {t}")
     for opt in pairs:
         if opt not in seen:
             r.bad(key_of(ge, f"{opt} missing"), ge.loc(), f"generate_command never appends {opt}", "plus the documented --jade-job-name and --jade-runtime-output arguments when requested")
     od = [x for x in iter_own(ge.node) if isinstance(x, ast.Assign) and ctx.src(x.targets[0]) == "output_dir"]
-    r.check(len(od) == 1 and ctx.src(od[0].value) == "os.path.dirname(output)", "runtime output = parent of the job-outputs directory", key_of(ge, "output_dir"), ge.loc(), f"output_dir = {[ctx.src(x.value) for x in od]}")
+    inline = "{os.path.dirname(output)}" in ctx.src(ge.node)
+    r.check((len(od) == 1 and ctx.src(od[0].value) == "os.path.dirname(output)") or (not od and inline), "runtime output = parent of the job-outputs directory", key_of(ge, "output_dir"), ge.loc(), f"output_dir = {[ctx.src(x.value) for x in od]}")
     gj = ctx.fn("JobRunner._generate_jobs", "C19.5")
     okj = "self._jobs_output" in ctx.src(gj.node)
     r.check(okj, "generate_command receives the runner's job-outputs directory", key_of(gj, "jobs output"), gj.loc(), "generate_command is not given self._jobs_output")
